@@ -192,4 +192,51 @@ theorem search_total (fs : Dir) (c : Cache) (b e m : Nat) (res : Bytes) (kd ki :
     (∃ c' xs, findFrom (cutIdx (cutData fs kd) ki) c b m = (c', xs)) :=
   ⟨⟨_, _, rfl⟩, ⟨_, _, rfl⟩⟩
 
+/-! ## 7. what the pinned code violates (known findings, `known/C17.jsonl`) -/
+
+def mk (res : Nat) (pass rt : Nat) : Item :=
+  { ts := 0, res := [res], pass := pass, block := 0, complete := 0, error := 0, rt := rt, occ := 0, conc := 0, cls := 0 }
+
+/-- writer created in second 1, one item in second 1 and one in second 2 -/
+def dirFirst : Dir := (runWrites (Writer.new 1000 100000 4) [(1000, [mk 97 1 5]), (2000, [mk 97 2 5])]).files
+
+/-- `metriclog-first-second`: the item of the creation second is retained but not found -/
+theorem first_second_witness :
+    specFind (retained dirFirst) 1000 9000 [] = [{ mk 97 1 5 with ts := 1000 }, { mk 97 2 5 with ts := 2000 }] ∧
+    (find dirFirst {} 1000 9000 []).2 = [{ mk 97 2 5 with ts := 2000 }] := by
+  decide
+
+/-- limit 40 bytes: every write rolls; seconds 2, 3, 4 end up in three files -/
+def dirCache : Dir :=
+  (runWrites (Writer.new 1000 40 8) [(2000, [mk 97 1 5]), (3000, [mk 97 2 5]), (4000, [mk 97 3 5])]).files
+
+/-- `metriclog-cache-skip`: the same query twice on one searcher; the second answer lacks the first file -/
+theorem cache_skip_witness :
+    (find dirCache {} 2000 9000 []).2 = specFind (retained dirCache) 2000 9000 [] ∧
+    (find dirCache (find dirCache {} 2000 9000 []).1 2000 9000 []).2
+      = [{ mk 97 2 5 with ts := 3000 }, { mk 97 3 5 with ts := 4000 }] ∧
+    (specFind (retained dirCache) 2000 9000 []).length = 3 := by
+  decide
+
+/-- one line `2000|1970-01-01 00:00:02|a|3|0|0|0|1234|0|0|0`, cut after `12` of the 8th field -/
+def dirTorn : Dir := (runWrites (Writer.new 1000 100000 4) [(2000, [mk 97 3 1234])]).files
+
+/-- `metriclog-torn-line`: the fragment is returned as an item that was never written -/
+theorem torn_line_witness :
+    (find (cutData dirTorn 37) {} 2000 2000 []).2 = [{ mk 97 3 12 with ts := 2000 }] ∧
+    ({ mk 97 3 12 with ts := 2000 } : Item) ∉ retained dirTorn := by
+  decide
+
+/-- limits (50 bytes, 2 files): second 2 continues after a size roll, the file holding its index entry is removed -/
+def dirOrphan : Dir :=
+  (runWrites (Writer.new 1000 50 2)
+    [(2000, [mk 97 1 5, mk 98 1 5]), (2500, [mk 97 2 5, mk 98 2 5]), (3000, [mk 97 3 5])]).files
+
+/-- `metriclog-orphan-head`: the retained items of second 2 are not found -/
+theorem orphan_head_witness :
+    specFind (retained dirOrphan) 2000 9000 [] =
+      [{ mk 97 2 5 with ts := 2500 }, { mk 98 2 5 with ts := 2500 }, { mk 97 3 5 with ts := 3000 }] ∧
+    (find dirOrphan {} 2000 9000 []).2 = [{ mk 97 3 5 with ts := 3000 }] := by
+  decide
+
 end Sentinel.C17
